@@ -20,7 +20,7 @@ dense Kronecker rotation of C04 (`C03_nll_is_born_complex`, `C03_nll_is_born_den
 `C03_born_complex_normalised`, `C03_born_density_normalised`); `p̃ + ε > 0` follows from the guard and `ε > 0`
 (`C03_exact_gradient_density_eps_pos`); the pairing is the dot product of the flattened records in `parameters()` order
 (`C03_layout`, `C03_layout_prbm`, `C03_exact_gradient_*_flat`); batch of one (`C03_single_sample*`); `bases=None` / all-Z rows
-(`C03_allZ_sample*`); mixed-state permutation invariance; the unused default branch of `pi_grad` (`C03_pi_grad_branches_*`).
+(`C03_bases_none*`); mixed-state permutation invariance; the unused default branch of `pi_grad` (`C03_pi_grad_branches_*`).
 -/
 import Mathlib.Analysis.SpecialFunctions.Log.Deriv
 import QV.Lemmas.Deriv
@@ -744,15 +744,51 @@ theorem C03_single_sample_density (am ph d : PRBM ℝ n h a) (dict : Char → M2
     div_one] at h1 h2
   exact ⟨h1.1, h1.2, h2.1, h2.2⟩
 
-/-- **C03.7** `gradient(samples, bases=None)` of the complex / mixed state returns the amplitude network's energy gradient
-and a ZERO phase gradient: the same as an all-`Z` basis row, which takes the fast path. -/
-theorem C03_allZ_sample (am ph : RBM ℝ n h) (dict : Char → M2 ℝ) (s : Sample n) (hz : s.allZ = true) :
+theorem cplxGrad1_allZ (am ph : RBM ℝ n h) (dict : Char → M2 ℝ) (s : Sample n) (hz : s.allZ = true) :
     cplxGrad1 am ph dict s = (am.effEnergyGrad1 s.vis, RBM.zero) := by
   simp [cplxGrad1, hz]
 
-theorem C03_allZ_sample_density (am ph : PRBM ℝ n h a) (dict : Char → M2 ℝ) (eps : ℝ) (s : Sample n) (hz : s.allZ = true) :
+theorem dmGrad1_allZ (am ph : PRBM ℝ n h a) (dict : Char → M2 ℝ) (eps : ℝ) (s : Sample n) (hz : s.allZ = true) :
     dmGrad1 am ph dict eps s = (am.effEnergyGrad1 s.vis, PRBM.zero) := by
   simp [dmGrad1, hz]
+
+/-- **C03.7** `gradient(samples, bases=None)` — computed by the code as `[effective_energy_gradient(samples), zeros]`, the model
+`gradientPos` of the amplitude network — is what the grouped per-basis accumulation `gradient(samples, bases)` returns
+when every row is a reference-basis row (whatever the strings look like, as long as every letter is `Z`): the amplitude
+part is the batch energy gradient (no row lost or double-counted by the grouping), the phase part is zero. -/
+theorem C03_bases_none (am ph d : RBM ℝ n h) (dict : Char → M2 ℝ) {B : ℕ} (σs : Fin B → Fin n → Bool)
+    (bs : Fin B → List Char) (hz : ∀ b, (⟨σs b, bs b⟩ : Sample n).allZ = true) :
+    (gradientCplx am ph dict ((List.finRange B).map (fun b => (⟨σs b, bs b⟩ : Sample n)))).1.pair d
+        = (gradientPos am (fun b => visOf (σs b))).pair d
+    ∧ (gradientCplx am ph dict ((List.finRange B).map (fun b => (⟨σs b, bs b⟩ : Sample n)))).2.pair d = 0 := by
+  have h := pair_gradientCplx am ph d dict ((List.finRange B).map (fun b => (⟨σs b, bs b⟩ : Sample n)))
+  rw [h.1, h.2, List.map_map, List.map_map]
+  constructor
+  · rw [gradientPos, RBM.pair_effEnergyGrad, Fin.sum_univ_def]
+    congr 1
+    refine List.map_congr_left (fun b _ => ?_)
+    simp only [Function.comp, cplxGrad1_allZ am ph dict _ (hz b)]
+    rfl
+  · rw [← Fin.sum_univ_def]
+    refine Finset.sum_eq_zero (fun b _ => ?_)
+    simp only [Function.comp, cplxGrad1_allZ am ph dict _ (hz b), RBM.pair_zero]
+
+theorem C03_bases_none_density (am ph d : PRBM ℝ n h a) (dict : Char → M2 ℝ) (eps : ℝ) {B : ℕ} (σs : Fin B → Fin n → Bool)
+    (bs : Fin B → List Char) (hz : ∀ b, (⟨σs b, bs b⟩ : Sample n).allZ = true) :
+    (gradientDM am ph dict eps ((List.finRange B).map (fun b => (⟨σs b, bs b⟩ : Sample n)))).1.pair d
+        = (am.effEnergyGrad (fun b => visOf (σs b))).pair d
+    ∧ (gradientDM am ph dict eps ((List.finRange B).map (fun b => (⟨σs b, bs b⟩ : Sample n)))).2.pair d = 0 := by
+  have h := pair_gradientDM am ph d dict eps ((List.finRange B).map (fun b => (⟨σs b, bs b⟩ : Sample n)))
+  rw [h.1, h.2, List.map_map, List.map_map]
+  constructor
+  · rw [PRBM.pair_effEnergyGrad, Fin.sum_univ_def]
+    congr 1
+    refine List.map_congr_left (fun b _ => ?_)
+    simp only [Function.comp, dmGrad1_allZ am ph dict eps _ (hz b)]
+    rfl
+  · rw [← Fin.sum_univ_def]
+    refine Finset.sum_eq_zero (fun b _ => ?_)
+    simp only [Function.comp, dmGrad1_allZ am ph dict eps _ (hz b), PRBM.pair_zero]
 
 /-! ### C03-3: the `expand=False` (default) branch of `pi_grad` -/
 
